@@ -14,7 +14,8 @@ RULE = ("per run: format (pickle/json), user-space buffer size, prior on-disk co
         "fsync, close, rename#1, rename#2, remove) x kind (crash before/after, EIO, ENOSPC with short write, EACCES) x crash "
         "resolution (process death; power loss with un-synced data kept/dropped/prefix/zero-filled and a drawn prefix of the "
         "directory journal). Oracle: a fresh gateway's start-up load yields exactly the old or the new state; after a failed op one "
-        "more save succeeds and reloads to the current state. 12% of the runs keep the configured file as a symbolic link into another "
+        "more save succeeds and reloads to the current state; in 60% of those runs the save after the failed one is itself interrupted at a drawn "
+        "operation (process death / power loss) on a copy of the disk and the load must still give old or new. 12% of the runs keep the configured file as a symbolic link into another "
         "directory. 15% of the runs are OVERLAP runs instead: two saves of one process (timer thread and stopping thread, a state change in "
         "between) under a pre-emptive schedule inside the save code, process death at a drawn operation of either of them or none; the "
         "load must give one of the complete states old / mid / new. non-trivial = the fault landed after the first write to the temp file "
@@ -23,7 +24,7 @@ TIERS = {
     "quick": {"runs": 6000, "max_wall": 240, "minimise_s": 20, "chunk": 100},
     "thorough": {"runs": 250000, "max_wall": 3000, "minimise_s": 60, "chunk": 500},
 }
-FAULT_KINDS = ["crash_before", "crash_after", "EIO", "ENOSPC (short write)", "EACCES", "two overlapping saves (schedule)", "configured file is a symlink", "powerloss: unsynced data kept/dropped/prefix/zerofill",
+FAULT_KINDS = ["crash in the save after a failed one", "crash_before", "crash_after", "EIO", "ENOSPC (short write)", "EACCES", "two overlapping saves (schedule)", "configured file is a symlink", "powerloss: unsynced data kept/dropped/prefix/zerofill",
                "powerloss: journal prefix"]
 REAL = ["mysensors.persistence (save_sensors, safe_load_sensors, both serialisers)", "mysensors.task.start_persistence", "pickle", "json",
         "mysensors handlers building the states"]
@@ -62,7 +63,9 @@ def gen(rng, tier, index):
         "cfg": {"version": version, "fmt": fmt, "prior": rng.choice(PRIORS), "bufsize": rng.choice([16, 64, 512, 8192, 8192]),
                 "kind": rng.choice(KINDS), "resolution": rng.choice(RESOLUTIONS), "journal_frac": rng.random(),
                 "cut": rng.random(), "point": rng.random(), "point2": rng.random(), "long_tmp": rng.random() < 0.5,
-                "relpath": rng.choice([None, None, None, "mysensors", "some_folder/mysensors"]), "symlink": rng.random() < 0.12},
+                "relpath": rng.choice([None, None, None, "mysensors", "some_folder/mysensors"]), "symlink": rng.random() < 0.12,
+                "second_crash": ({"point": rng.random(), "point2": rng.random(), "kind": rng.choice(["crash_before", "crash_after"])}
+                                 if rng.random() < 0.6 else None)},
         "old": diskutil.state_lines(rng, version, rng.randint(2, 25)),
         "new": diskutil.state_lines(rng, version, rng.randint(1, 12)) + [f"{rng.choice([1, 2, 3])};255;0;0;17;2.{rng.randrange(3)}"],
         "stale": diskutil.state_lines(rng, version, rng.randint(1, 6)),
@@ -306,6 +309,37 @@ def run(case):
                     faults["powerloss_after_failed_op_" + mode] = 1
                     probes["powerloss_after_failed_op"] = 1
                     _check_load(dw, lost, s_old, s_new, violations, probes, "after failed operation and power loss", cfg, opname, kind)
+                if status == "error" and cfg.get("second_crash") and not violations:
+                    # the process lives on after the failed operation, and its NEXT save is the one that is interrupted (process
+                    # death or power loss at a drawn operation of that save): still a complete old or new state afterwards
+                    numbering = fs.clone()
+                    dw.use(numbering)
+                    numbering.arm({})
+                    gw_a.tasks.persistence.need_save = True
+                    st_dry, _exc = dw.save(gw_a)
+                    oplog2 = list(numbering.oplog)
+                    if st_dry == "ok" and oplog2:
+                        second = fs.clone()
+                        dw.use(second)
+                        gw_a.tasks.persistence.need_save = True
+                        names2 = sorted({o[1] for o in oplog2})
+                        name2 = names2[min(len(names2) - 1, int(cfg["second_crash"]["point"] * len(names2)))]
+                        cands2 = [o[0] for o in oplog2 if o[1] == name2]
+                        n2 = cands2[min(len(cands2) - 1, int(cfg["second_crash"]["point2"] * len(cands2)))]
+                        second.arm({n2: cfg["second_crash"]["kind"]})
+                        st2, _exc = dw.save(gw_a)
+                        second.disarm()
+                        if st2 == "crash":
+                            probes["crash_in_save_after_failed_op"] = 1
+                            faults["crash in the save after a failed one"] = 1
+                            if cfg["resolution"] == "strict":
+                                after2 = second.crash("strict")
+                            else:
+                                keep2 = int(round(cfg["journal_frac"] * len(second.journal)))
+                                after2 = second.crash("powerloss", journal_keep=keep2, data_mode=cfg["resolution"].split("-")[1], cut=cfg["cut"])
+                            _check_load(dw, after2, s_old, s_new, violations, probes, f"after failed operation and a crash at {name2} of the next save",
+                                        cfg, opname, kind)
+                    gw_a.tasks.persistence.need_save = True
                 # the original process: one more save must complete and persist the current state
                 dw.use(fs)
                 status2, exc2 = dw.save(gw_a)
